@@ -5,6 +5,23 @@ ROOT = os.path.dirname(os.path.abspath(__file__))
 
 # id -> dict(text, note, technique, design_ref, engine)
 CLAIMED = {
+ "C09": dict(
+    text="Lean 4 theorems for every requested size / max / current size: resize_terminates (the do-while loop of _do_cds_lfht_resize reaches "
+         "size = least power of two >= the clamped request; fuel 1), resize_diverges_unfixed (record of the repaired defect), and on a "
+         "transition system with one step per shared access (resizer pcs, lazy grow/shrink launches racing, FIFO work queue, resize and "
+         "destroy callers): size_in_bounds / stored_targets_in_bounds (size and target always powers of two in [1,max]), "
+         "lazy_shrink_never_overrides_grow, partition_covers (helper ranges + fallback tile [0,len) exactly once for every len, cpu mask "
+         "and creation-failure point), alloc_before_publish / event_order_invariant (allocate->populate->publish; unpublish->GP->remove->"
+         "GP->free), resizer_terminates_after_last_change, destroy_after_queued_resizes, bucket_at_{order,chunk,mmap}_in_bounds/_injective. "
+         "Tie: the real rculfhash.c + allocators: differential tests of every pure helper, end-to-end event replay through a wrapping "
+         "mm plug-in / recording allocator, partitioned 65536-bucket resize, counter-driven lazy grow/shrink with the real "
+         "COUNT_COMMIT_ORDER, destroy behind queued resizes; watchdog + independent C oracles. Partial: 'nodes found during a concurrent "
+         "resize' belongs to C05/C08; real-thread schedules are exploration only (no cooperative-scheduler tie for this component).",
+    note="Trusted: Lean kernel; grace period as a counter; SC in the transition system; shims on pthread_create and "
+         "urcu_workqueue_queue_work; destroy API contract. Observation recorded in DESIGN: __cds_lfht_resize_lazy_launch queues the work "
+         "before storing resize_initiated=1 (auto-resize can stall); outside the listed properties.",
+    technique="Lean 4 proofs (arithmetic of the resize loop, invariants of a resize/launch transition system, partition tiling) + differential and event-order replay of the real source",
+    design_ref="§4 C09, §5", engine="lfhtresize"),
  "C13": dict(
     text="Lean 4 theorems for all (fct,arg) bit patterns and all stream lengths: codec_roundtrip, ring_decode/ring_roundtrip (free-running "
          "head/tail, ring wrap, SIZE-2 flush rule), ring_index_wrap (BitVec 64 across the 2^64 wrap), and on a model with any number of "
